@@ -16,6 +16,7 @@
 //!   /k/<n>      read up to n body bytes, then respond
 //!   /none       respond without reading the body          /first   respond, then read the body
 //!   /hold       respond, then wait at the barrier (G), then return without reading
+//!   /slow/<ms>  respond, then stay in the handler for <ms> milliseconds, then return without reading
 //!   /err        return Err without responding              /errafter respond, then return Err
 //!   /close      respond with `connection: close`
 //!   /reader/<n> respond with an n-byte body through the streaming printer (sendr)
@@ -72,6 +73,12 @@ pub fn app(mut ctx: RequestContext, res: &mut ResponseHandle) -> io::Result<()> 
         }
         GO.store(false, Ordering::SeqCst);
         HELD.store(false, Ordering::SeqCst);
+        Ok(())
+    } else if let Some(ms) = path.strip_prefix("/slow/") {
+        // respond, stay in the handler for a while (the connection is "in flight"), return without reading
+        let d = describe(&ctx, b"");
+        res.ok(&nd, d)?;
+        std::thread::sleep(Duration::from_millis(ms.parse().unwrap_or(1)));
         Ok(())
     } else if path.starts_with("/errafter") {
         let d = describe(&ctx, b"");
@@ -269,6 +276,7 @@ pub fn parse_response(buf: &[u8]) -> Option<(usize, String)> {
 }
 
 pub fn run(case: &str) -> String {
+    crate::util::note_current(case);
     let mut steps = case.split(';');
     let n: usize = steps.next().unwrap().strip_prefix("N=").unwrap().parse().unwrap();
     let mut conn = Conn::start(n);
@@ -292,6 +300,7 @@ pub fn run(case: &str) -> String {
 // case:  `<hex bytes> <cut,cut,..>|<cut,..>|...`   (each cut list = one segmentation; the client half-closes after sending)
 // impl:  the transcript of each segmentation joined by '#'
 pub fn run_readloop(case: &str) -> String {
+    crate::util::note_current(case);
     let (h, segs) = case.split_once(' ').unwrap();
     let bytes = unhex(h);
     let mut outs = Vec::new();
@@ -349,6 +358,7 @@ pub fn gen_readloop(ctx: &crate::Ctx) {
 // stream `clientread` (C03, client side): khttp::Client reading a response that arrives in segments
 // case:  `<hex response bytes> <cut,..>|<cut,..>|...` ; impl: per segmentation `OK,<status>,<hex body>` | `ERR,<kind>` joined by '#'
 pub fn run_clientread(case: &str) -> String {
+    crate::util::note_current(case);
     use khttp::{Client, ClientError};
     let (h, segs) = case.split_once(' ').unwrap();
     let bytes = unhex(h);
